@@ -146,6 +146,8 @@ pub struct SegPlan {
     pub splits: Vec<(usize, Vec<(usize, Duration)>)>,
     /// deliver every byte of every frame separately with this pause
     pub byte_pause: Option<Duration>,
+    /// like `splits`, for the (first) send with this label
+    pub label_splits: Vec<(String, Vec<(usize, Duration)>)>,
 }
 
 #[derive(Clone, Debug)]
@@ -311,6 +313,10 @@ impl<'a, T: Transport> Client<'a, T> {
         let mut cuts: Vec<(usize, Duration)> = vec![];
         if let Some(p) = self.plan.seg.byte_pause {
             cuts = (1..wire.len()).map(|o| (o, p)).collect();
+        } else if let Some((_, c)) = self.plan.seg.label_splits.iter().find(|(l, _)| l == label) {
+            cuts = c.iter().filter(|(o, _)| *o > 0 && *o < wire.len()).cloned().collect();
+            cuts.sort_by_key(|c| c.0);
+            cuts.dedup_by_key(|c| c.0);
         } else if let Some((_, c)) = self.plan.seg.splits.iter().find(|(i, _)| *i == index) {
             cuts = c.iter().filter(|(o, _)| *o > 0 && *o < wire.len()).cloned().collect();
             cuts.sort_by_key(|c| c.0);
